@@ -736,6 +736,11 @@ class XsdAtomicBuiltin(XsdAtomic):
                 context.validation_error(validation, self, err)
 
         try:
+            if isinstance(obj, str) and self.white_space == 'collapse' and obj != obj.strip() \
+                    and self.python_type is not str:
+                # Not XSD white space, but the Python/elementpath converters strip it
+                raise ValueError(_("invalid value {!r}: white space characters other "
+                                   "than #x20, #x9, #xA, #xD").format(obj))
             result: DecodedValueType = self.to_python(obj)
         except (ValueError, DecimalException, OverflowError) as err:
             context.decode_error(validation, self, obj, self.to_python, err)
